@@ -7,27 +7,27 @@ props = [json.loads(l) for l in open(os.path.join(V, "properties.jsonl"))]
 CHECKS = {
  "C06": dict(
    technique="TLA+ spec IdPool model-checked with TLC; TLC-generated call sequences replayed on the real allocator; recorded calls validated against the spec by TLC (trace validation)",
-   text="Exhaustive within bounds: TLC enumerates every call sequence (get/put incl. out-of-range and repeated releases) of depth 5-8 over ranges of 1-4 identifiers; each is executed on the real allocator and every call/result pair must be a step of IdPool.tla; seeded random histories extend this to ranges of 1-6 ids and to the production range. The writer-level half (ids on the wire = outstanding set, no leak after completion/session end) is validated by the C03 driver against Delivery.tla.",
+   text="Exhaustive within bounds: TLC enumerates every call sequence (get/put incl. out-of-range and repeated releases) of depth 5-8 over ranges of 1-4 identifiers; each is executed on the real allocator and every call/result pair must be a step of IdPool.tla; seeded random histories extend this to ranges of 1-6 ids and to the production range. The writer-level half (ids on the wire = outstanding set, no leak after completion/session end) is validated by the C03 driver against Delivery.tla. Every allocator call has 3 s to return (a call that never returns is a rejection); at the writer, recipients that vanish while a publish for them is handled must not keep an identifier (scheduler gates, RaceTrace).",
    note="Trusts TLC, the Json community module and the verif-tagged constructor wasp.VerifNewMIDPool (returns newMIDPool unchanged). Allocation policy (which free id) is deliberately unconstrained.",
    design="5 C06, 4.2"),
  "C04": dict(
    technique="TLA+ spec AckQueue model-checked with TLC; TLC-generated call sequences replayed on the real ack.Queue; every return value and callback validated against the spec by TLC (trace validation)",
-   text="Exhaustive within bounds: TLC enumerates call sequences over Insert/Ack/Expire (coinciding and same-second deadlines, every ack packet type, duplicate and refused registrations, sweeps before/between/after; exhaustive to depth 3-4, simulated to depth 7-9), each closed by a far-future sweep; the real queue's return values and callbacks must be a behaviour of AckQueue.tla (ExactlyOnce, frame conditions, must/may sweep window). Below the queue, the bare expiry structure (expiration.NewList) is driven on its own: TimeoutList.tla transcribes buckets/heap as coded and is model-checked against the bag of (value, deadline) pairs it refines, with three transcribed defects as negative controls; TLC-generated Insert/Delete/Expire sequences over same-second, sub-second and rounding-boundary deadlines are replayed on the real structure and every sweep report validated (TimeoutListTrace).",
+   text="Exhaustive within bounds: TLC enumerates call sequences over Insert/Ack/Expire (coinciding and same-second deadlines, every ack packet type, duplicate and refused registrations, sweeps before/between/after; exhaustive to depth 3-4, simulated to depth 7-9), each closed by a far-future sweep; the real queue's return values and callbacks must be a behaviour of AckQueue.tla (ExactlyOnce, frame conditions, must/may sweep window). Below the queue, the bare expiry structure (expiration.NewList) is driven on its own: TimeoutList.tla transcribes buckets/heap as coded and is model-checked against the bag of (value, deadline) pairs it refines, with three transcribed defects as negative controls; TLC-generated Insert/Delete/Expire sequences over same-second, sub-second and rounding-boundary deadlines are replayed on the real structure and every sweep report validated (TimeoutListTrace). Concurrent level: histories recorded from goroutines on the real queue - random ones and focused ones (wrong-type acknowledgement bursts or the right acknowledgement racing a sweep on a due entry) - must be linearizable against AckQueue (Lin.tla).",
    note="Trusts TLC and the Json module. Sweep latitude: must fire at now >= deadline+1s, must not at now <= deadline-1s. Callbacks attributed by a tag in the closure. Concurrent use is C20.",
    design="5 C04, 4.3"),
  "C01": dict(
    technique="TLA+ specs Topics/SubIndex model-checked with TLC; TLC-generated domains and subscribe/unsubscribe histories executed on the real trie and replicated subscription state; answers validated by TLC against Matches (trace validation)",
-   text="Exhaustive within bounds at index level: every valid filter x every topic of <=3 (quick) / <=4 (thorough) levels over {a,b,''} plus wildcards, on subscriptions.Tree.Walk and SubscriptionsState.ByPattern; all ordered filter pairs at 2 levels; all TLC-generated subscribe/unsubscribe/re-subscribe histories of depth 3-4 over prefix-related filters; seeded random filter sets beyond. Every answer must equal {active subscriptions whose filter Matches the topic}, each once.",
+   text="Exhaustive within bounds at index level: every valid filter x every topic of <=3 (quick) / <=4 (thorough) levels over {a,b,''} plus wildcards, on subscriptions.Tree.Walk and SubscriptionsState.ByPattern; all ordered filter pairs at 2 levels; all TLC-generated subscribe/unsubscribe/re-subscribe histories of depth 3-4 over prefix-related filters; seeded random filter sets beyond. Every answer must equal {active subscriptions whose filter Matches the topic}, each once. Broker level: histories on one node and on two nodes with at-least-once gossip; SUBSCRIBE / UNSUBSCRIBE packets carrying several filters; overlapping operations (a SUBSCRIBE / UNSUBSCRIBE / PUBLISH parked at a scheduler gate inside its handler while others complete) judged by RaceTrace.tla.",
    note="Trusts TLC, the Json module; strings are built by joining level sequences (ground truth). Invalid filters excluded.",
    design="5 C01, 4.1"),
  "C19": dict(
    technique="TLA+ spec TopicStore model-checked with TLC; TLC-generated operation sequences executed on both real tries; lookups/Count/Iterate after every step validated against the map by TLC (trace validation)",
-   text="Exhaustive within bounds: every sequence of 4 (quick) / 5 (thorough) operations - write (insert or replace), remove, dump, load-last-dump over 5 keys - plus simulated sequences of depth 8-10, on topics.Store and subscriptions.Tree, with prefix-related, empty-level and deep key sets; after every operation all exact-key lookups, Count and Iterate (as a multiset) must equal the map TopicStore.tla; no operation may panic.",
+   text="Exhaustive within bounds: every sequence of 4 (quick) / 5 (thorough) operations - write (insert or replace), remove, dump, load-last-dump over 5 keys - plus simulated sequences of depth 8-10, on topics.Store and subscriptions.Tree, with prefix-related, empty-level and deep key sets; after every operation all exact-key lookups, Count and Iterate (as a multiset) must equal the map TopicStore.tla; no operation may panic. The retained store as the broker uses it behind the replicated state: histories pushed whole into a fresh replica.",
    note="Trusts TLC and the Json module. Return values of Insert/Remove are not constrained (not part of C19).",
    design="5 C19, 4.1"),
  "C07": dict(
    technique="TLA+ specs Retained/Topics model-checked with TLC; TLC-generated retained-publish histories and the exhaustive filter domain executed on the real TopicsState (origin and replica); every Get validated by TLC against Replay (trace validation)",
-   text="Exhaustive within bounds at store level: every history of 3 (quick) / 4 (thorough) retained publishes (set, replace, clear) over 5 prefix-related topics probed with 12 filters after each step on the origin and on a replica fed by the origin's broadcasts; every topic of the <=3-level domain x every filter; full and half-cleared stores x every filter; seeded random histories. Every answer must be exactly the most recent non-empty payload of every matching topic, once, flagged retained.",
+   text="Exhaustive within bounds at store level: every history of 3 (quick) / 4 (thorough) retained publishes (set, replace, clear) over 5 prefix-related topics probed with 12 filters after each step on the origin and on a replica fed by the origin's broadcasts; every topic of the <=3-level domain x every filter; full and half-cleared stores x every filter; seeded random histories. Every answer must be exactly the most recent non-empty payload of every matching topic, once, flagged retained. Unacknowledged retained replays retransmitted at sweeps (flag kept); overlapping operations: a SUBSCRIBE parked before its registration / before its retained lookup while a retained publish completes, and the reverse (RaceTrace.tla: the latest retained payload reaches every complete subscription).",
    note="Trusts TLC and the Json module; in-order complete gossip delivery to the replica (faults are C08-C10).",
    design="5 C07, 4.9"),
  "C08": dict(
@@ -42,27 +42,27 @@ CHECKS = {
    design="5 C09, 4.7"),
  "C10": dict(
    technique="TLA+ spec Crdt model-checked with TLC (PushDominates); TLC-generated pairs of node histories with lost gossip and pushes executed via real LocalState/MergeRemoteState; listings after each push validated by TLC against LWW (trace validation)",
-   text="Exhaustive within bounds: every pair of node histories with 3 (thorough 4) local operations and all gossip lost, plus simulated histories with partial gossip and TLC-chosen pushes; each followed by a push into a fresh node, a one-way push and an exchange in both directions; every node's listing after every step must be LWW over its own updates plus the sender's. After the exchange both nodes are pushed into further fresh nodes (snapshots served repeatedly, entries learnt only by merging).",
+   text="Exhaustive within bounds: every pair of node histories with 3 (thorough 4) local operations and all gossip lost, plus simulated histories with partial gossip and TLC-chosen pushes; each followed by a push into a fresh node, a one-way push and an exchange in both directions; every node's listing after every step must be LWW over its own updates plus the sender's. After the exchange both nodes are pushed into further fresh nodes (snapshots served repeatedly, entries learnt only by merging). Every other scenario's pushes run with join = true.",
    note="Trusts TLC, the Json module, the clock hook.",
    design="5 C10, 4.7"),
  "C16": dict(
    technique="TLA+ spec Auth model-checked with TLC; TLC-generated credential-table shapes materialised as files for the real auth.FileHandler/StaticHandler; every load and Authenticate outcome validated by TLC against Admit/MountOf (trace validation)",
-   text="Exhaustive within bounds: every table shape over 5 (thorough 6) user names (absent / 2-field / 3-field line) x line orders (sorted, reversed, seeded shuffles); per table every present user with right / empty / wrong / another user's password, every absent user, empty and unknown user names; three-field lines with an empty mount column; the static store with all 16 combinations. Load must succeed and each outcome must equal Admit with the entry's mount point (default when none). Candidates include near misses of every configured pair: user/password boundary moved, swapped, joined, padded, case-changed, truncated, doubled.",
+   text="Exhaustive within bounds: every table shape over 5 (thorough 6) user names (absent / 2-field / 3-field line) x line orders (sorted, reversed, seeded shuffles); per table every present user with right / empty / wrong / another user's password, every absent user, empty and unknown user names; three-field lines with an empty mount column; the static store with all 16 combinations. Load must succeed and each outcome must equal Admit with the entry's mount point (default when none). Candidates include near misses of every configured pair: user/password boundary moved, swapped, joined, padded, case-changed, truncated, doubled. Reconnection storms (8-12 goroutines on one shared handler); CONNECT packets larger than 64 KiB at broker level.",
    note="Trusts TLC and the Json module. User names with ':' '\"' newline and duplicate user names are not generated.",
    design="5 C16, 4.9"),
  "C15": dict(
    technique="TLA+ spec MsgLog model-checked with TLC over every crash point (scaled constants, negative control with Margin 0); TLC-generated crash schedules executed by child processes on the real commit log that SIGKILL themselves inside verif hooks; every recorded consumer step validated by TLC against the spec with the code's constants (trace validation)",
-   text="Fault enumeration bound to a model: MC explores every crash point x log length x batch position with scaled constants; on the real store child processes are killed inside the callback, after callback return, after the offset write and after the truncation check at offsets around 0, batch edges, segment edges (499-501), truncation edges (1999-2001, 2999-3001) and random ones, over 2-3 crash/restart rounds with appends before and during consumption; the trace must be a behaviour of MsgLog's consumer (state-file value at each start, in-order gap-free hand-over from the stored offset, intact payloads) and end with every entry handed over.",
+   text="Fault enumeration bound to a model: MC explores every crash point x log length x batch position with scaled constants; on the real store child processes are killed inside the callback, after callback return, after the offset write and after the truncation check at offsets around 0, batch edges, segment edges (499-501), truncation edges (1999-2001, 2999-3001) and random ones, over 2-3 crash/restart rounds with appends before and during consumption; the trace must be a behaviour of MsgLog's consumer (state-file value at each start, in-order gap-free hand-over from the stored offset, intact payloads) and end with every entry handed over. Backlogs of 5600 entries; a third of the schedules consumed through wasp.SchedulePublishes with a recording writer.",
    note="Trusts TLC, the Json module, the three verif hooks in Consume. SIGKILL, not power loss. 'Replays at most the message being processed' read as inclusive resume from the stored offset (DESIGN.md 4.6).",
    design="5 C15, 4.6"),
  "C02": dict(
    technique="TLA+ specs MsgLog/Inbound model-checked with TLC (TruncSafe with Margin-0 negative control); TLC-generated publish/subscribe scripts and seeded long runs executed on a real in-process node; the recorded trace validated by TLC against the broker specification BrokerTrace incl. the quiescence obligation (trace validation)",
-   text="Every TLC-generated script of 3 (thorough 4) steps in which clients both publish (QoS 0/1/2, delayed PUBREL) and subscribe on a fresh node (first message ever stored included); seeded long runs of bursts with payloads up to 70 KB crossing the 500-entry segment roll and the truncations at 2000/3000 with a gated subscriber that makes the writer lag by a full queue at the truncation points, on empty and pre-filled logs. At quiescence every acknowledged publish must have reached every session that stayed connected with a matching subscription, topic and payload (length+CRC) intact. A subscriber that stops reading for a whole burst carrying the log past a truncation point, then resumes, must still receive everything (writer lagging far behind the log consumer).",
+   text="Every TLC-generated script of 3 (thorough 4) steps in which clients both publish (QoS 0/1/2, delayed PUBREL) and subscribe on a fresh node (first message ever stored included); seeded long runs of bursts with payloads up to 70 KB crossing the 500-entry segment roll and the truncations at 2000/3000 with a gated subscriber that makes the writer lag by a full queue at the truncation points, on empty and pre-filled logs. At quiescence every acknowledged publish must have reached every session that stayed connected with a matching subscription, topic and payload (length+CRC) intact. A subscriber that stops reading for a whole burst carrying the log past a truncation point, then resumes, must still receive everything (writer lagging far behind the log consumer). PUBRELs that arrive after their handshake has timed out; two-node QoS 1 scripts in which the log or the link of one destination fails and recovers.",
    note="Trusts TLC, the Json module, the harness seams and completion hooks. Long runs are seeded samples; the scripts are exhaustive within their bounds.",
    design="5 C02, 4.6, 4.5"),
  "C03": dict(
    technique="TLA+ spec Delivery (on IdPool and AckQueue) model-checked with TLC; TLC-generated client response scripts executed on a real node with driver-issued sweeps; every packet written, in-flight callback and pool content validated by TLC against BrokerTrace (trace validation)",
-   text="Exhaustive within bounds: every response script of depth 4 (thorough 5) for a QoS 1 and a QoS 2 message on one subscriber - acknowledge, wrong packet type, foreign identifier, silence across deadlines, close, DISCONNECT - plus simulated scripts for two subscribers and three messages; retransmissions must carry the same identifier and happen only after an expiry, PUBREL follows PUBREC, nothing is sent after completion or session end, and the identifiers held by the pool at quiescence equal those of the live exchanges.",
+   text="Exhaustive within bounds: every response script of depth 4 (thorough 5) for a QoS 1 and a QoS 2 message on one subscriber - acknowledge, wrong packet type, foreign identifier, silence across deadlines, close, DISCONNECT - plus simulated scripts for two subscribers and three messages; retransmissions must carry the same identifier and happen only after an expiry, PUBREL follows PUBREC, nothing is sent after completion or session end, and the identifiers held by the pool at quiescence equal those of the live exchanges. Sweeps shortly before the deadlines; messages that fan out to two subscribers of the same QoS; recipients that vanish while a publish for them is handled (scheduler gates); a delivery the script is entitled to and does not find is a rejection.",
    note="Trusts TLC, the Json module, the harness seams; sweeps use synthetic 'now' (real time + 4.5 s / 9 s), no real 3 s waits.",
    design="5 C03, 4.4"),
  "C05": dict(
@@ -72,37 +72,37 @@ CHECKS = {
    design="5 C05, 4.5"),
  "C14": dict(
    technique="TLA+ spec Inbound model-checked with TLC; TLC-generated distribution scripts executed on three real nodes joined by the harness network; every log append, delivery and acknowledgement validated by TLC against BrokerTrace (trace validation)",
-   text="Publishers on two nodes, topics hosted on {1,2}, {2}, {1}, {} of three nodes, QoS 0/1/2, every combination of failing destinations (log / RPC) toggled between steps: each message must be appended exactly once to the log of each hosting node known to the publisher and to no other, each node writes it only to its local matching sessions, a failing destination does not prevent the others (checked at quiescence) and withholds the acknowledgement. One topic is hosted on two nodes that are both remote for the publisher (failure isolation between remote destinations).",
+   text="Publishers on two nodes, topics hosted on {1,2}, {2}, {1}, {} of three nodes, QoS 0/1/2, every combination of failing destinations (log / RPC) toggled between steps: each message must be appended exactly once to the log of each hosting node known to the publisher and to no other, each node writes it only to its local matching sessions, a failing destination does not prevent the others (checked at quiescence) and withholds the acknowledgement. One topic is hosted on two nodes that are both remote for the publisher (failure isolation between remote destinations). Dynamic subscriptions (made after each topic was published once, one removed before a last publish); fail-and-recover scripts; publishes with an empty payload owe an append to every reachable destination.",
    note="Trusts TLC, the Json module, the harness seams; gossip is fully delivered between steps.",
    design="5 C14, 4.5"),
  "C11": dict(
    technique="TLA+ spec Session model-checked with TLC (EndsOnlyForCause, NoEarlyExpiry, ClosedAtEnd, NoTraceLeft); TLC-generated session scripts executed on real nodes over virtual-time connections; the recorded trace validated by TLC against BrokerTrace incl. probes of every node at quiescence (trace validation)",
-   text="TLC-generated scripts (depth 5, thorough 6) of two connections on two nodes over connect / subscribe / ping / idle 0.5, 0.95, 2.1, 10 keep-alives at any position (incl. right after CONNECT, up to 3 per script) / DISCONNECT / connection loss / malformed packet / second CONNECT / publish, plus scripts with a hosting-node failure: no time-out within the keep-alive of the last client packet, no unregistration without cause, connection closed at the end, nothing written to an ended session, every node lists exactly the live sessions and their subscriptions at quiescence. Plus long-lived well-behaved clients (random walks of 14 steps with a PINGREQ after every idle period of 0.5 / 0.95 keep-alives; the virtual connection has net.Conn's write-deadline semantics) and one scenario in six with the audit sink unreachable.",
+   text="TLC-generated scripts (depth 5, thorough 6) of two connections on two nodes over connect / subscribe / ping / idle 0.5, 0.95, 2.1, 10 keep-alives at any position (incl. right after CONNECT, up to 3 per script) / DISCONNECT / connection loss / malformed packet / second CONNECT / publish, plus scripts with a hosting-node failure: no time-out within the keep-alive of the last client packet, no unregistration without cause, connection closed at the end, nothing written to an ended session, every node lists exactly the live sessions and their subscriptions at quiescence. Plus long-lived well-behaved clients (random walks of 14 steps with a PINGREQ after every idle period of 0.5 / 0.95 keep-alives; the virtual connection has net.Conn's write-deadline semantics) and one scenario in six with the audit sink unreachable. Takeover-then-node-failure schedules; SUBSCRIBEs whose sender hangs up while the handler is parked half-way (scheduler gates).",
    note="Trusts TLC, the Json module, the harness (virtual clock for connection deadlines, completion hooks). Scripts are an even sample of the exhaustive set. The peer-failure purge is a real 3.3 s wait.",
    design="5 C11, 4.8"),
  "C12": dict(
    technique="TLA+ spec Session model-checked with TLC (OneResolved, SuccessorSpared); TLC-generated takeover scripts (pairs, chains) and hand-written in-flight-tombstone schedules executed on real nodes; validated by TLC against BrokerTrace (trace validation)",
-   text="Pairs on one node, pairs on two nodes and chains of three connections sharing a client id, with the old session's PINGREQ / SUBSCRIBE / DISCONNECT / close interleaved in every order (depth 5-6, sampled evenly), plus schedules where the accepting node still lists a stale record: the new session is established, the displaced one gets no PINGRESP and ends, every node lists exactly the live non-displaced sessions and their subscriptions. Plus 'late news' schedules: the takeover happens while gossip is held back and the displaced session ends (or not) on its node before that node hears of it; released in order or newest first; the successor must keep being served and listed.",
+   text="Pairs on one node, pairs on two nodes and chains of three connections sharing a client id, with the old session's PINGREQ / SUBSCRIBE / DISCONNECT / close interleaved in every order (depth 5-6, sampled evenly), plus schedules where the accepting node still lists a stale record: the new session is established, the displaced one gets no PINGRESP and ends, every node lists exactly the live non-displaced sessions and their subscriptions. Plus 'late news' schedules: the takeover happens while gossip is held back and the displaced session ends (or not) on its node before that node hears of it; released in order or newest first; the successor must keep being served and listed. Three-node schedules (the third node hears of the takeover first; every node's resolution of each client id is probed); will-carrying sessions; overlapping CONNECTs of one client id with one set-up parked at each of its steps (RaceTrace.tla: one accepted session is left and is what the id resolves to).",
    note="Trusts TLC, the Json module, the harness gossip network. C12's proviso: records of earlier sessions are merged at the accepting node; clocks not skewed.",
    design="5 C12, 4.8"),
  "C13": dict(
    technique="TLA+ spec Session model-checked with TLC (WillIffUnclean); TLC-generated scripts for will-carrying sessions executed on real nodes with watchers; will appends and deliveries validated by TLC against BrokerTrace (trace validation)",
-   text="Will QoS 0-2, retained or not, multi-level topic, tenant A, host node 1 or 2; causes DISCONNECT / close / malformed / keep-alive expiry / node failure at every position of scripts of depth 4 (thorough 5); watchers with '#', '+', exact and non-matching filters on two nodes and in another tenant: the will is appended only after an unclean end, under the tenant-prefixed topic, and every matching watcher receives it once per matching subscription; never after DISCONNECT. Plus three-node failures: the two survivors are told in either order, with or without the first survivor's gossip delivered in between.",
+   text="Will QoS 0-2, retained or not, multi-level topic, tenant A, host node 1 or 2; causes DISCONNECT / close / malformed / keep-alive expiry / node failure at every position of scripts of depth 4 (thorough 5); watchers with '#', '+', exact and non-matching filters on two nodes and in another tenant: the will is appended only after an unclean end, under the tenant-prefixed topic, and every matching watcher receives it once per matching subscription; never after DISCONNECT. Plus three-node failures: the two survivors are told in either order, with or without the first survivor's gossip delivered in between. Silent will-carrying sessions must end (a subscription-less session silent for four keep-alives is not served any more); displaced will-carrying sessions (never published twice); sessions that connect and end within one gossip interval before their node fails, with the peer hearing of it newest first / with retransmissions.",
    note="Trusts TLC, the Json module, the harness. Displacement is not among C13's causes (will allowed, not required).",
    design="5 C13, 4.8"),
  "C17": dict(
    technique="TLA+ specs Session/Topics model-checked with TLC; TLC-generated multi-tenant scripts executed on real nodes; every delivery and every session listing validated by TLC against BrokerTrace (trace validation)",
-   text="Three connections in tenants A, B, A (client ids dev, dev, dev3) on two nodes with '#', '+', '+/+' subscriptions, publishers, retained messages and wills in both tenants, topics named like the other tenant, three '#' watchers: every PUBLISH written must stem from a message of the recipient's tenant and carry exactly the publisher's topic levels; a session is displaced only by a same-tenant session of the same client id. Plus failures of a node hosting (retained) wills whose topics spell the other tenant's mount point, with '#' watchers of every tenant before and subscribers after the failure; mount points with '/' in their names.",
+   text="Three connections in tenants A, B, A (client ids dev, dev, dev3) on two nodes with '#', '+', '+/+' subscriptions, publishers, retained messages and wills in both tenants, topics named like the other tenant, three '#' watchers: every PUBLISH written must stem from a message of the recipient's tenant and carry exactly the publisher's topic levels; a session is displaced only by a same-tenant session of the same client id. Plus failures of a node hosting (retained) wills whose topics spell the other tenant's mount point, with '#' watchers of every tenant before and subscribers after the failure; mount points with '/' in their names. Topic names and filters with '..', '.', empty, leading and trailing levels; the same client id in both tenants with keep-alive exchanges before and after the other one connects; a QoS 2 publisher whose PUBREL follows the other tenants' publishes.",
    note="Trusts TLC, the Json module, the harness authentication seam (user 'tenant:<x>' -> mount point x). Mount-point names without '/', '+', '#'.",
    design="5 C17, 4.8"),
  "C18": dict(
    technique="TLA+ spec ConnFsm model-checked with TLC; TLC-generated packet-type sequences, each malformed input realised by structure-aware byte mutations, sent to real brokers running in child processes with a witness round trip after every stream; process deaths observed directly, traces validated by TLC against BrokerTrace (trace validation)",
-   text="Every sequence of 3 inputs (thorough: + 20000 of length 4) over all 14 control packet types, MALFORMED and EOF before CONNECT, plus about 1000 byte-level mutations (truncation at every offset with EOF, first-byte values, remaining-length edge values up to 268435455 and 5-byte lengths, inner length prefixes, QoS 3, empty lists, identifier 0, seeded random bytes) each alone before and after a valid CONNECT: the broker process must survive (a panic kills the child process and is reported with the stream), only the offender's session may end, the witness pair's QoS 1 round trip must succeed after every stream, nothing may stall. Well-formed protocol violations are always-run streams (wildcard and odd topic names, retained or not; misplaced wildcards in filters; retained will on a wildcard topic); the witness also publishes retained messages and periodically a new client connects, subscribes (retained replay), pings and leaves.",
+   text="Every sequence of 3 inputs (thorough: + 20000 of length 4) over all 14 control packet types, MALFORMED and EOF before CONNECT, plus about 1000 byte-level mutations (truncation at every offset with EOF, first-byte values, remaining-length edge values up to 268435455 and 5-byte lengths, inner length prefixes, QoS 3, empty lists, identifier 0, seeded random bytes) each alone before and after a valid CONNECT: the broker process must survive (a panic kills the child process and is reported with the stream), only the offender's session may end, the witness pair's QoS 1 round trip must succeed after every stream, nothing may stall. Well-formed protocol violations are always-run streams (wildcard and odd topic names, retained or not; misplaced wildcards in filters; retained will on a wildcard topic); the witness also publishes retained messages and periodically a new client connects, subscribes (retained replay), pings and leaves. Reserved requested-QoS values on filters that match other clients' topics; a subscriber that stops reading (blocking writes that fail at the write deadline on the virtual clock) must not stall the others.",
    note="Trusts TLC, the Json module, the harness. Which bytes realise 'malformed' is outside TLA+. Quick samples 3200 of the streams (seeded).",
    design="5 C18, 8"),
  "C20": dict(
    technique="Recorded concurrent histories of the real shared objects checked for linearizability by TLC against the sequential TLA+ specifications (Lin.tla over IdPool, AckQueue, a registry map, TopicStore); whole-broker stress checked by TLC against StressTrace.tla; everything runs under the Go race detector",
-   text="Sampled, not enumerated: 224 (thorough 2400) seeded concurrent histories of 4-8 goroutines on the identifier pool, the in-flight table, the local registry and both tries (linearizability decided by TLC), concurrent writers on two replicated-state nodes with gossip and full-state pushes (must list the same after a full exchange), the expiration list (every timeout fires once), and whole-broker stress runs (about 1000 connections with re-used client ids, 2600 publishes at QoS 0/1/2 in 4 s; thorough 6 x 30 s) whose post-stress obligations (acknowledged publishes reached every stable subscriber; listings, registries and identifier pool clean) are checked by TLC. A race report whose racing access lies in the repository is a violation.",
+   text="Sampled, not enumerated: 224 (thorough 2400) seeded concurrent histories of 4-8 goroutines on the identifier pool, the in-flight table, the local registry and both tries (linearizability decided by TLC), concurrent writers on two replicated-state nodes with gossip and full-state pushes (must list the same after a full exchange), the expiration list (every timeout fires once), and whole-broker stress runs (about 1000 connections with re-used client ids, 2600 publishes at QoS 0/1/2 in 4 s; thorough 6 x 30 s) whose post-stress obligations (acknowledged publishes reached every stable subscriber; listings, registries and identifier pool clean) are checked by TLC. A race report whose racing access lies in the repository is a violation. Focused concurrent histories on the in-flight table; broker panics under stress are violations; 'hasty client' interleavings (set-up parked where it registers the session while the client hangs up: the registry keeps no ghost).",
    note="Trusts TLC, the Json module, the Go race detector. Schedules are whatever the Go scheduler produced. The whole-broker stress uses an in-memory message log (the commitlog dependency has races of its own). Lin.tla documents three tolerated non-atomicities (two-step Insert, element-wise sweep, key-only timeout entries).",
    design="5 C20, 4.9"),
 }
